@@ -48,6 +48,10 @@ def judge(case, obs, resps):
     if case.get("kind") != "blocks":
         return _session_judge(case, obs, resps)
     r = resps[0]
+    if "unobservable" in obs:
+        # the private reader helpers were not found under any recognisable name: these reader-level cases say
+        # nothing; the property is decided through whole transfers (same conversion, same framing)
+        return Judgement(case, True, True, None, kind="blocks/unobservable", nontrivial=False)
     if "harness_exception" in obs or "err" in r:
         return Judgement(case, True, False, {"infrastructure": obs.get("harness_exception") or r.get("err")}, kind="infra",
                          nontrivial=False)
